@@ -190,13 +190,16 @@ def loop_config(m, which, callback):
         ex.nops = nops
         return st
 
-    def spec_value(ex, st, k):
-        """row value the spec assigns to op k, computed from the spec memory M(k)"""
+    def spec_value(ex, st, k, read=None):
+        """row value the spec assigns to op k, computed from the spec memory M(k) (or through ``read(slot)``)"""
         kk = to_int(k)
         ins = []
         for col in range(2, 6):
             loc = ex.CL(ex.OPS(kk, col))
-            ins.append(tuple(SBV(z3.Select(ex.Ms[p](kk), loc)) for p in range(nplanes)))
+            if read is not None:
+                ins.append(read(ex.OPS(kk, col)))
+            else:
+                ins.append(tuple(SBV(z3.Select(ex.Ms[p](kk), loc)) for p in range(nplanes)))
         res = None
         for name in NAMES:
             v = spec_row(m, name, ins)
@@ -265,7 +268,83 @@ def loop_config(m, which, callback):
 
     contract = {'post': post, 'print_unreachable': True,
                 'loops': {loop_ordinal: {'inv': inv, 'assume': assume_def, 'kinds': {}}}}
-    return Config(f'm={m}/{"callback" if callback else "plain"}', contract, setup, None)
+    cfg = Config(f'm={m}/{"callback" if callback else "plain"}', contract, setup, None)
+    cfg.parts = dict(setup=setup, assume_def=assume_def, spec_value=spec_value, nplanes=nplanes, loop_ordinal=loop_ordinal, scratch=scratch)
+    return cfg
+
+
+def composition_config(m, which):
+    """Composition over the op list (Inv of DESIGN.md 4): with ghost netlist values V(slot) defined along the op list (A1) and
+    an abstract liveness LIVE(slot, k) satisfying the memory-map hypotheses A2-A5 (consequences of MapValid: operands are live
+    when read; liveness only starts at production; whoever lives at the output location after op k carries the output's value;
+    live slots never sit on a scratch row), every live slot holds its netlist value after every op:
+        Inv(k):  forall x. LIVE(x, k) -> c[c_locs[x]] == V(x)
+    requires Inv(0) (sources loaded); ensures Inv(n) (every captured line holds the gate-by-gate value)."""
+    base = loop_config(m, which, False)
+    P = base.parts
+    nplanes, lo = P['nplanes'], P['loop_ordinal']
+
+    def setup(ex):
+        st = P['setup'](ex)
+        ex.V = [z3.Function(f'V{p}', z3.IntSort(), z3.BitVecSort(8)) for p in range(nplanes)]
+        ex.LIVE = z3.Function('LIVE', z3.IntSort(), z3.IntSort(), z3.BoolSort())
+        x = z3.Int('x')
+        for p in range(nplanes):
+            st.assume(SBool(z3.ForAll([x], z3.Implies(ex.LIVE(x, 0), z3.Select(st.heap[('c', p)], ex.CL(x)) == ex.V[p](x)))))
+        return st
+
+    def assume_def(ex, st):
+        P['assume_def'](ex, st)
+        k = to_int(st.env[f'__k{lo}'])
+        out = ex.OPS(k, 1)
+        nl = to_int(st.env['__nlines__'])
+        dangling = out == nl + 1
+        readV = lambda slot: tuple(SBV(ex.V[p](slot)) for p in range(nplanes))
+        sv = P['spec_value'](ex, st, st.env[f'__k{lo}'], read=readV)
+        x = z3.Int('x')
+        CL, LIVE, V = ex.CL, ex.LIVE, ex.V
+        t0, t1 = CL(nl + 1), CL(nl + 2)
+        hyp = []
+        hyp.append(z3.Implies(z3.Not(dangling), z3.And(*[V[p](out) == sv[p].e for p in range(nplanes)])))                        # A1
+        for col in range(2, 6):
+            hyp.append(LIVE(ex.OPS(k, col), k))                                                                                  # A2
+        hyp.append(z3.ForAll([x], z3.Implies(z3.And(LIVE(x, k + 1), CL(x) != CL(out)), LIVE(x, k))))                             # A3
+        hyp.append(z3.ForAll([x], z3.Implies(z3.And(LIVE(x, k + 1), CL(x) == CL(out)),
+                                            z3.And(z3.Not(dangling), *[V[p](x) == V[p](out) for p in range(nplanes)]))))       # A4
+        for kk in (k, k + 1):
+            hyp.append(z3.ForAll([x], z3.Implies(LIVE(x, kk), z3.And(CL(x) != t0, CL(x) != t1))))                                # A5
+        for h in hyp:
+            st.assume(SBool(h))
+
+    def inv(ex, st):
+        k = to_int(st.env[f'__k{lo}'])
+        x = z3.Int('x')
+        for p in range(nplanes):
+            yield f'Inv: every live slot holds its netlist value (plane {p})', \
+                SBool(z3.ForAll([x], z3.Implies(ex.LIVE(x, k), z3.Select(st.heap[('c', p)], ex.CL(x)) == ex.V[p](x))))
+
+    def post(ex, st):
+        x = z3.Int('x')
+        n = to_int(ex.nops)
+        for p in range(nplanes):
+            yield f'every slot live after the last op (captured lines) holds the gate-by-gate value (plane {p})', \
+                SBool(z3.ForAll([x], z3.Implies(ex.LIVE(x, n), z3.Select(st.heap[('c', p)], ex.CL(x)) == ex.V[p](x))))
+        ex.prove(st, 'mustfail:live slots hold zero', SBool(z3.ForAll([x], z3.Implies(ex.LIVE(x, n), z3.Select(st.heap[('c', 0)], ex.CL(x)) == 0))),
+                 ex.fn, expect='refuted')
+    contract = {'post': post, 'loops': {lo: {'inv': inv, 'assume': assume_def, 'kinds': {}}}}
+    return Config(f'm={m}/composition', contract, setup, None)
+
+
+def composition_targets(ms=(2, 4, 8)):
+    ts = []
+    if 2 in ms:
+        ts.append(Target('logic_sim', '_prop_cpu', [composition_config(2, '_prop_cpu')], prims=prims(2), instantiate='fallback',
+                         note='composition over the op list under the memory-map hypotheses A1-A5'))
+    cfgs = [composition_config(m, 'c_prop') for m in ms if m != 2]
+    if cfgs:
+        ts.append(Target('logic_sim', 'LogicSim.c_prop', cfgs, prims=prims(0), instantiate='fallback',
+                         note='composition over the op list under the memory-map hypotheses A1-A5'))
+    return ts
 
 
 class SArr(Model):
